@@ -14,6 +14,8 @@ number has (`normal_mk`) — it restricts representations, not numbers.
 -/
 import CtyModel.Lemmas.GoctyRoundtrip
 import CtyModel.Lemmas.GoctyFloat
+import CtyModel.Lemmas.GoctySched
+import CtyModel.Generated.IntBounds
 namespace CtyModel
 namespace C18
 open Gocty
@@ -32,14 +34,38 @@ theorem bounds_table :
   refine ⟨by decide, by decide, fun w => by cases w <;> decide, fun b s => ?_⟩
   cases s <;> simp [lo, hi]
 
+/-- The tie of that table to the source: `Generated.intBounds` / `uintBounds` are
+re-extracted from the `switch target.Type().Bits()` of `fromCtyNumberInt` /
+`fromCtyNumberUInt` in cty/gocty/out.go on every check (a changed bound, a new or
+removed case, or a changed range test makes this theorem fail to check).  Every
+row of the source is a row of the model's table with the same bounds, the model
+panics ("weird number of bits") exactly where the source has no case, and the
+refusal tests are the ones `fromNumInt` / `fromNumUInt` transliterate. -/
+theorem bounds_table_is_source :
+    Generated.intBounds.map (fun r => (r.1, intMinMax r.1)) = Generated.intBounds.map (fun r => (r.1, some r.2)) ∧
+    Generated.uintBounds.map (fun r => (r.1, uintMax r.1)) = Generated.uintBounds.map (fun r => (r.1, some r.2)) ∧
+    (∀ b, b ∉ Generated.intBounds.map (·.1) → intMinMax b = none) ∧
+    (∀ b, b ∉ Generated.uintBounds.map (·.1) → uintMax b = none) ∧
+    Generated.intRangeTest = "accuracy != big.Exact || iv < min || iv > max" ∧
+    Generated.uintRangeTest = "accuracy != big.Exact || !bf.IsInt() || iv > max" := by
+  refine ⟨by decide, by decide, fun b hb => ?_, fun b hb => ?_, by decide, by decide⟩
+  · have h : Generated.intBounds.map (·.1) = [8, 16, 32, 64] := by decide
+    rw [h] at hb
+    unfold intMinMax
+    split <;> simp_all
+  · have h : Generated.uintBounds.map (·.1) = [8, 16, 32, 64] := by decide
+    rw [h] at hb
+    unfold uintMax
+    split <;> simp_all
+
 /-- Integers of every width, signed and unsigned: decoding the number `x` into the
 target succeeds iff `x` is a whole number `k` (finite, no fractional part) with
 `lo ≤ k ≤ hi` for that width and signedness, and then exactly `k` is stored. -/
-theorem int_ok_iff (x : Num) (hx : normalNum x = true) (w : IntW) (s : Bool) (g : GoVal) :
-    fromCty ⟨.number, .n x⟩ (.int w s) = .ok g ↔
+theorem int_ok_iff (S : Sched) (x : Num) (hx : normalNum x = true) (w : IntW) (s : Bool) (g : GoVal) :
+    fromCtyS S ⟨.number, .n x⟩ (.int w s) = .ok g ↔
       ∃ k : Int, IsTheInt x k ∧ lo w.bits s ≤ k ∧ k ≤ hi w.bits s ∧ g = .int k := by
-  have : fromCty ⟨.number, .n x⟩ (.int w s) = fromNum x (.int w s) := by
-    simp only [fromCty, fromCtyP, GoTy.base, GoTy.isCval, GoTy.depth, wrapPtr]
+  have : fromCtyS S ⟨.number, .n x⟩ (.int w s) = fromNum x (.int w s) := by
+    simp only [fromCtyS, fromCtyP, GoTy.base, GoTy.isCval, GoTy.depth, wrapPtr]
     cases fromNum x (.int w s) <;> rfl
   rw [this]
   exact fromNum_int_ok_iff x hx w s g
@@ -200,46 +226,76 @@ theorem float_exact (x : Num) (is32 : Bool) (h : (if is32 then x.isF32 else x.is
 /-! ### "otherwise, and for unknown values, nulls into non-nilable targets and shape mismatches, it returns an error" -/
 
 /-- unknown values (marked or not) are refused by every target other than a `cty.Value` -/
-theorem errors_unknown (ty : Ty) (r : Rfn) (T : GoTy) (h : T.base.isCval = false) :
-    (∃ c, fromCty ⟨ty, .unk r⟩ T = .err c) ∧ ∀ m, ∃ c, fromCty ⟨ty, .marked m (.unk r)⟩ T = .err c :=
-  ⟨⟨_, fromCtyP_unknown [] ty r T h⟩, fun m => ⟨_, fromCtyP_marked_unknown [] m ty r T h⟩⟩
+theorem errors_unknown (S : Sched) (ty : Ty) (r : Rfn) (T : GoTy) (h : T.base.isCval = false) :
+    (∃ c, fromCtyS S ⟨ty, .unk r⟩ T = .err c) ∧ ∀ m, ∃ c, fromCtyS S ⟨ty, .marked m (.unk r)⟩ T = .err c :=
+  ⟨⟨_, fromCtyP_unknown S [] ty r T h⟩, fun m => ⟨_, fromCtyP_marked_unknown S [] m ty r T h⟩⟩
 
 /-- null is refused by every non-nilable target (not a pointer, slice, map or `cty.Value`) -/
-theorem errors_null_nonnilable (ty : Ty) (T : GoTy) (h1 : T.nilableKind = false) (h2 : T.isCval = false) :
-    ∃ c, fromCty ⟨ty, .null⟩ T = .err c := fromCtyP_null_nonnilable ty T h1 h2
+theorem errors_null_nonnilable (S : Sched) (ty : Ty) (T : GoTy) (h1 : T.nilableKind = false) (h2 : T.isCval = false) :
+    ∃ c, fromCtyS S ⟨ty, .null⟩ T = .err c := fromCtyP_null_nonnilable S ty T h1 h2
 
 /-- a known, non-null value whose shape the target does not accept is refused -/
-theorem errors_shape_mismatch (v : Value) (T : GoTy) (hk : kindOK v.ty v.v = true)
-    (hs : shapeOK v.ty T.base = false) : ∃ c, fromCty v T = .err c :=
-  fromCtyP_shape v.ty v.v T hk hs
+theorem errors_shape_mismatch (S : Sched) (v : Value) (T : GoTy) (hk : kindOK v.ty v.v = true)
+    (hs : shapeOK v.ty T.base = false) : ∃ c, fromCtyS S v T = .err c :=
+  fromCtyP_shape S v.ty v.v T hk hs
 
 /-- `errors_otherwise`: the three clauses together -/
-theorem errors_otherwise (v : Value) (T : GoTy) (hc : T.base.isCval = false) :
-    (∀ r, v.v = .unk r → ∃ c, fromCty v T = .err c) ∧
-    (v.v = .null → T.nilableKind = false → ∃ c, fromCty v T = .err c) ∧
-    (kindOK v.ty v.v = true → shapeOK v.ty T.base = false → ∃ c, fromCty v T = .err c) := by
+theorem errors_otherwise (S : Sched) (v : Value) (T : GoTy) (hc : T.base.isCval = false) :
+    (∀ r, v.v = .unk r → ∃ c, fromCtyS S v T = .err c) ∧
+    (v.v = .null → T.nilableKind = false → ∃ c, fromCtyS S v T = .err c) ∧
+    (kindOK v.ty v.v = true → shapeOK v.ty T.base = false → ∃ c, fromCtyS S v T = .err c) := by
   obtain ⟨ty, p⟩ := v
   refine ⟨?_, ?_, ?_⟩
-  · rintro r rfl; exact (errors_unknown ty r T hc).1
+  · rintro r rfl; exact (errors_unknown S ty r T hc).1
   · rintro rfl hn
     have : T.isCval = false := by cases T <;> simp_all [GoTy.base, GoTy.isCval, GoTy.nilableKind]
-    exact errors_null_nonnilable ty T hn this
-  · exact errors_shape_mismatch ⟨ty, p⟩ T
+    exact errors_null_nonnilable S ty T hn this
+  · exact errors_shape_mismatch S ⟨ty, p⟩ T
 
 /-! ### "for unmarked values it never panics when given a non-nil pointer target" -/
 
 /-- `FromCtyValue(v, new(T))` does not panic for any value without marks (at any
 depth) and any target type — whatever the value's type, shape, nullness, knownness. -/
-theorem no_panic_unmarked (v : Value) (T : GoTy) (h : v.containsMarked = false) :
-    ∀ w, fromCty v T ≠ .panic w := by
+theorem no_panic_unmarked (S : Sched) (v : Value) (T : GoTy) (h : v.containsMarked = false) :
+    ∀ w, fromCtyS S v T ≠ .panic w := by
   intro w hw
-  have := fromCtyP_noPanic v.v v.ty T h
-  unfold fromCty at hw
+  have := fromCtyP_noPanic v.v S v.ty T h
+  unfold fromCtyS at hw
   rw [hw] at this
   cases this
 
+/-! ### Go's map order (`fromCtyObject` ranges over a Go map): for every schedule -/
+
+/-- Whatever order Go visits the attributes of the objects in (`S`, `S'`: one order per
+object met), the outcome is the same up to WHICH failure is reported: success and the
+decoded value, failure, and "outside the model" do not depend on it. -/
+theorem schedule_decides_only_which_failure (S S' : Sched) (v : Value) (T : GoTy) :
+    cls (fromCtyS S v T) = cls (fromCtyS S' v T) := fromCtyP_sched v.v S S' [] v.ty T
+
+/-- For a value without marks even that choice is immaterial: it succeeds with the same
+Go value under every schedule, or is refused with an error under every schedule. -/
+theorem schedule_irrelevant_unmarked (S S' : Sched) (v : Value) (T : GoTy) (h : v.containsMarked = false) :
+    (∀ g, fromCtyS S v T = .ok g ↔ fromCtyS S' v T = .ok g) ∧
+    ((∃ c, fromCtyS S v T = .err c) ↔ ∃ c, fromCtyS S' v T = .err c) := by
+  have hc := schedule_decides_only_which_failure S S' v T
+  have p1 := no_panic_unmarked S v T h
+  have p2 := no_panic_unmarked S' v T h
+  constructor
+  · intro g
+    cases h1 : fromCtyS S v T <;> cases h2 : fromCtyS S' v T <;> simp_all [cls]
+  · cases h1 : fromCtyS S v T <;> cases h2 : fromCtyS S' v T <;> simp_all [cls]
+
+/-- … while a marked attribute next to a failing one makes Go's map order visible:
+the same call panics or returns an error -/
+theorem schedule_matters_marked_counterexample :
+    let v : Value := ⟨.object ["a", "b"] [.number, .number] [false, false],
+      .smap ["a", "b"] [.marked ["m"] (.n (Num.ofInt 1)), .null]⟩
+    let T : GoTy := .struct ["a", "b"] [.int .w8 true, .int .w8 true]
+    fromCtyS idSched v T = .panic "marked" ∧
+    fromCtyS (fun _ names => names.reverse) v T = .err "null value is not allowed" := ⟨rfl, rfl⟩
+
 /-- the guard is the one the code has: a marked value does reach the panicking accessors -/
-theorem marked_can_panic : fromCty ⟨.bool, .marked ["m"] (.b true)⟩ .bool = .panic "marked" := by rfl
+theorem marked_can_panic (S : Sched) : fromCtyS S ⟨.bool, .marked ["m"] (.b true)⟩ .bool = .panic "marked" := by rfl
 
 /-! ### "Converting a Go value … to the value type implied by its Go type — or arrays and big numbers to the corresponding list and number types — and back reproduces the Go value exactly, with nil pointers, slices and maps corresponding to null"
 
@@ -254,26 +310,31 @@ big numbers (numbers).  `rtSide norm g T` (decidable) says:
   field without a tag — which the bridge does not carry — holds its zero value;
 * no `cty.Value` below a slice, array or map (a cty list/map has one element type),
   and no `cty.NilVal` (the invalid zero `cty.Value`) in a bridged position.
-The first two are exactly the two recorded known findings; see the counterexamples. -/
+The first two are exactly the two recorded known findings; see the counterexamples.
+Mis-tagged structs are excluded for a reason of their own: of two fields with one tag
+`structTagIndices` keeps the later (the earlier field is silently not bridged), and a tag
+that is not NFC never matches the normalised attribute name (`ToCtyValue` writes null for
+it, `FromCtyValue` reports a missing attribute).  What the code does there is modelled
+(`effTags`, `impliedStruct`) and corresponded, but it is not a round trip. -/
 
 /-- nil ↔ null, stated on its own: a nil slice, map or pointer converts to the null
 value of the wanted type, and a null list / map / anything-through-a-pointer decodes
 to a nil slice / map / pointer (a pointer to a non-nilable, non-`cty.Value` type). -/
-theorem nil_is_null (norm : String → String) (t : Ty) (E : GoTy) :
+theorem nil_is_null (S : Sched) (norm : String → String) (t : Ty) (E : GoTy) :
     toCty norm .nilSlice (.list t) = .ok (Value.null (.list t)) ∧
     toCty norm .nilMap (.map t) = .ok (Value.null (.map t)) ∧
     toCty norm .nilPtr t = .ok (Value.null t) ∧
-    fromCty (Value.null (.list t)) (.slice E) = .ok .nilSlice ∧
-    fromCty (Value.null (.map t)) (.map E) = .ok .nilMap ∧
-    fromCty (Value.null .string) (.ptr .str) = .ok .nilPtr ∧
-    fromCty (Value.null .number) (.ptr (.ptr (.int .w8 false))) = .ok (.ptr .nilPtr) :=
+    fromCtyS S (Value.null (.list t)) (.slice E) = .ok .nilSlice ∧
+    fromCtyS S (Value.null (.map t)) (.map E) = .ok .nilMap ∧
+    fromCtyS S (Value.null .string) (.ptr .str) = .ok .nilPtr ∧
+    fromCtyS S (Value.null .number) (.ptr (.ptr (.int .w8 false))) = .ok (.ptr .nilPtr) :=
   ⟨rfl, rfl, rfl, rfl, rfl, rfl, rfl⟩
 
 /-- The unconditional round-trip statement (false of the code, see below). -/
 def RoundtripAll : Prop :=
   ∀ (norm : String → String) (g : GoVal) (T : GoTy) (ty : Ty),
     hasTy g T = true → bridgeType norm T = .ok ty →
-    ∃ v, toCty norm g ty = .ok v ∧ fromCty v T = .ok g
+    ∃ v, toCty norm g ty = .ok v ∧ ∀ S, fromCtyS S v T = .ok g
 
 /-- Round trip, for every Go type of the modelled family and every value of it —
 integers of every width, floats, strings, booleans, slices, arrays, string-keyed
@@ -284,14 +345,14 @@ nil slices, maps and pointers go through null (they are `GoVal` constructors
 of their own and come back as themselves). -/
 theorem roundtrip_partial (norm : String → String) (g : GoVal) (T : GoTy) (ty : Ty)
     (hT : hasTy g T = true) (hs : rtSide norm g T = true) (hb : bridgeType norm T = .ok ty) :
-    ∃ v, toCty norm g ty = .ok v ∧ fromCty v T = .ok g := by
+    ∃ v, toCty norm g ty = .ok v ∧ ∀ S, fromCtyS S v T = .ok g := by
   obtain ⟨v, h1, h2, _⟩ := rt norm g T ty hT hs hb
   exact ⟨v, h1, h2⟩
 
 /-- the same through `ImpliedType` proper (no arrays, no big numbers at any depth) -/
 theorem roundtrip_implied (norm : String → String) (g : GoVal) (T : GoTy) (ty : Ty)
     (hT : hasTy g T = true) (hs : rtSide norm g T = true) (hb : impliedType norm T = .ok ty) :
-    ∃ v, toCty norm g ty = .ok v ∧ fromCty v T = .ok g :=
+    ∃ v, toCty norm g ty = .ok v ∧ ∀ S, fromCtyS S v T = .ok g :=
   roundtrip_partial norm g T ty hT hs (implied_bridge norm T ty hb)
 
 /-- and the value produced on the way has exactly the implied type whenever no
@@ -342,7 +403,7 @@ theorem impliedType_refuses (norm : String → String) (n : Nat) (e : GoTy) (tag
     (∃ c, impliedType norm (.array n e) = .err c) ∧ (∃ c, impliedType norm .bigInt = .err c) ∧
     (∃ c, impliedType norm .bigFloat = .err c) ∧ (∃ c, impliedType norm (.struct tags tys) = .err c) ∧
     (∃ c, impliedType norm (.ptr (.ptr (.array n e))) = .err c) :=
-  ⟨⟨_, rfl⟩, ⟨_, rfl⟩, ⟨_, rfl⟩, ⟨"no cty field tags", by simp [impliedType, impliedG, h]⟩, ⟨_, rfl⟩⟩
+  ⟨⟨_, rfl⟩, ⟨_, rfl⟩, ⟨_, rfl⟩, ⟨"no cty field tags", by simp [impliedType, impliedG, impliedStruct, taggedNames_effTags_nil tags h]⟩, ⟨_, rfl⟩⟩
 
 /-- … and where it succeeds the bridge type is the same type: the round trip above
 is, for those Go types, the round trip through `ImpliedType` itself. -/
@@ -351,38 +412,39 @@ theorem impliedType_is_bridgeType (norm : String → String) (T : GoTy) (ty : Ty
 
 /-- known finding 1: a nil `*[]string` becomes null, and null decodes to a non-nil
 pointer to a nil slice — the nil comes back one level further in -/
-theorem roundtrip_nilptr_counterexample :
+theorem roundtrip_nilptr_counterexample (S : Sched) :
     hasTy .nilPtr (.ptr (.slice .str)) = true ∧
     bridgeType id (.ptr (.slice .str)) = .ok (.list .string) ∧
     toCty id .nilPtr (.list .string) = .ok ⟨.list .string, .null⟩ ∧
-    fromCty ⟨.list .string, .null⟩ (.ptr (.slice .str)) = .ok (.ptr .nilSlice) :=
+    fromCtyS S ⟨.list .string, .null⟩ (.ptr (.slice .str)) = .ok (.ptr .nilSlice) :=
   ⟨rfl, rfl, rfl, rfl⟩
 
 /-- a normaliser that maps the decomposed "e◌́" to the composed "é", as NFC does -/
 def nfcSample : String → String := fun s => if s = "e\u0301" then "\u00e9" else s
 
 /-- known finding 2: a string that is not NFC comes back normalised -/
-theorem roundtrip_nfc_counterexample :
+theorem roundtrip_nfc_counterexample (S : Sched) :
     hasTy (.str "e\u0301") .str = true ∧ bridgeType nfcSample .str = .ok .string ∧
     toCty nfcSample (.str "e\u0301") .string = .ok ⟨.string, .s "\u00e9"⟩ ∧
-    fromCty ⟨.string, .s "\u00e9"⟩ .str = .ok (.str "\u00e9") :=
+    fromCtyS S ⟨.string, .s "\u00e9"⟩ .str = .ok (.str "\u00e9") :=
   ⟨rfl, rfl, rfl, rfl⟩
 
 /-- … and so does a map key -/
-theorem roundtrip_nfc_key_counterexample :
+theorem roundtrip_nfc_key_counterexample (S : Sched) :
     hasTy (.map ["e\u0301"] [.bool true]) (.map .bool) = true ∧
     bridgeType nfcSample (.map .bool) = .ok (.map .bool) ∧
     toCty nfcSample (.map ["e\u0301"] [.bool true]) (.map .bool) = .ok ⟨.map .bool, .smap ["\u00e9"] [.b true]⟩ ∧
-    fromCty ⟨.map .bool, .smap ["\u00e9"] [.b true]⟩ (.map .bool) = .ok (.map ["\u00e9"] [.bool true]) :=
+    fromCtyS S ⟨.map .bool, .smap ["\u00e9"] [.b true]⟩ (.map .bool) = .ok (.map ["\u00e9"] [.bool true]) :=
   ⟨rfl, rfl, rfl, rfl⟩
 
 /-- hence the unconditional statement does not hold -/
 theorem roundtripAll_false : ¬ RoundtripAll := by
   intro h
   obtain ⟨v, h1, h2⟩ := h id .nilPtr (.ptr (.slice .str)) (.list .string) rfl rfl
-  obtain ⟨_, _, e1, e2⟩ := roundtrip_nilptr_counterexample
+  obtain ⟨_, _, e1, e2⟩ := roundtrip_nilptr_counterexample idSched
   rw [e1] at h1
   cases h1
+  have h2 := h2 idSched
   rw [e2] at h2
   cases h2
 
@@ -390,9 +452,9 @@ theorem roundtripAll_false : ¬ RoundtripAll := by
 example : normalNum (Num.ofInt 127) = true ∧ lo IntW.w8.bits true ≤ 127 ∧ (127 : Int) ≤ hi IntW.w8.bits true := by
   decide
 example : IsTheInt (Num.ofInt 127) 127 := by simp [IsTheInt, Num.ofInt, Num.mk, Num.norm, Num.normFuel, Num.bitlen]
-example : fromCty ⟨.number, .n (Num.ofInt 127)⟩ (.int .w8 true) = .ok (.int 127) := by rfl
-example : fromCty ⟨.number, .n (Num.ofInt 128)⟩ (.int .w8 true) = .err "whole number" := by rfl
-example : fromCty ⟨.number, .n (Num.mk false 3 (-1) 64)⟩ (.int .w8 false) = .err "whole number" := by rfl
+example (S : Sched) : fromCtyS S ⟨.number, .n (Num.ofInt 127)⟩ (.int .w8 true) = .ok (.int 127) := by rfl
+example (S : Sched) : fromCtyS S ⟨.number, .n (Num.ofInt 128)⟩ (.int .w8 true) = .err "whole number" := by rfl
+example (S : Sched) : fromCtyS S ⟨.number, .n (Num.mk false 3 (-1) 64)⟩ (.int .w8 false) = .err "whole number" := by rfl
 example : normalNum (.fin true 3 1023 64) = true ∧ 0 ≤ Num.cmp (Num.abs (.fin true 3 1023 64)) thr64 := by
   refine ⟨by decide, ?_⟩
   rw [show Num.abs (.fin true 3 1023 64) = .fin false 3 1023 64 from rfl, thr64, Num.cmp_thr64_iff 3 1023 64 64 (by decide)]
